@@ -41,6 +41,26 @@ def check(ctx):
   r4_bits(ctx)
   r5_tables(ctx)
   r6_deadline(ctx)
+  from . import c14
+  ctx.rule('C14.R3', 'shared with C14: the Thrift call that ends every Tdispatch body is built from this call\'s own arguments (a fresh <method>_args(*args, **kwargs))')
+  c14.r3(ctx)
+  single_writer(ctx)
+
+
+def single_writer(ctx):
+  """Frames reach the socket through one greenlet: the send loop is the only writer of the mux connection."""
+  prog = ctx.prog
+  why = ('ScalesSocket.write is a loop of partial send() calls that yields when the kernel buffer is full: a second writer (a ping written directly, a reply to a '
+         'control message) lands in the middle of a half-written frame, and the byte stream is no longer a sequence of whole frames')
+  writers = []
+  for f in prog.all_funcs:
+    if f.module.rel not in (MUX, TSINK, 'scales/kafka/sink.py'):
+      continue
+    for c in ast.walk(f.node):
+      if isinstance(c, ast.Call) and isinstance(c.func, ast.Attribute) and c.func.attr in ('write', 'send', 'sendall') and U(c.func.value).endswith('_socket'):
+        writers.append(f.qualname)
+  ctx.ob('C13.R3', prog.func(MUX, 'MuxSocketTransportSink._SendLoop'), 'the send loop is the only writer of the connection', sorted(set(writers)) == ['MuxSocketTransportSink._SendLoop'],
+         'the socket is written from %s' % sorted(set(writers)), why)
 
 
 # ---------------------------------------------------------------------- R2b
